@@ -280,6 +280,31 @@ def to_liquid_string(c):
     c.replay("code", code=REPLAY)
 
 
+@contract("liquid.stringify:to_liquid_string", prop="C02", name="to_liquid_string[a range of the render data]")
+def to_liquid_string_range(c):
+    c.call(VRange(c.int("start").t, c.int("stop").t), c.bool("autoescape"))
+    c.raises("LiquidError")
+    c.assume_note("range(start, stop) with arbitrary (also huge) integer bounds, step 1")
+    c.replay("code", code=REPLAY_RANGE)
+
+
+REPLAY_RANGE = r'''
+def run(m):
+    from liquid import Environment
+    from liquid.exceptions import LiquidError
+    bad = []
+    for r in (range(0, 10**5000), range(-10**5000, 3), range(2, 5)):
+        for src in ("{{ r }}", "{{ r | append: 'x' }}", "{% capture c %}{{ r }}{% endcapture %}"):
+            try:
+                Environment().from_string(src).render(r=r)
+            except LiquidError:
+                pass
+            except BaseException as ex:
+                bad.append((src, r.stop > 10**100 or r.start < -10**100, type(ex).__name__))
+    return {"violated": bool(bad), "observed": bad[:4], "witness": "huge-range-stringified"}
+'''
+
+
 _H2 = load.exception_hierarchy()
 lookup_warning_contracts("C02", sorted(n for n, anc in _H2.items() if "LiquidError" in anc and "LiquidInterrupt" not in anc and n != "LiquidInterrupt"))
 
@@ -362,3 +387,33 @@ for _sfx in ("", "_async"):
                 c.assume_note("get_item raises only the lookup errors of its own contract (C16); path segments are arbitrary values of the render data")
                 c.replay("code", code=REPLAY_GET_HUGE)
         _mkget(_sfx, _n)
+
+# ---- ... and the item getter raises only the lookup errors get / get_async convert (the
+# ---- assumption of the contracts above, discharged here for C02 as well as for C16)
+
+REPLAY_ITEM = r'''
+def run(m):
+    import asyncio
+    from liquid import Environment
+    t = Environment().from_string("[{{ d.first }}|{{ d.last }}|{{ d.size }}|{{ e.first }}|{{ s.first }}|{{ n.first }}]")
+    out = []
+    for f in (lambda: t.render(d={}, e=[], s="", n=None), lambda: asyncio.run(t.render_async(d={}, e=[], s="", n=None))):
+        try:
+            out.append(f())
+        except BaseException as ex:
+            out.append(type(ex).__name__)
+    return {"violated": out != ["[||0|||]", "[||0|||]"], "observed": out, "witness": "item-getter-raises-a-non-lookup-error"}
+'''
+
+for _sfx in ("", "_async"):
+    def _mkgi(sfx):
+        @contract(_CTX + ".get_item" + sfx, prop="C02", name=f"get_item{sfx}[raises only the lookup errors that get{sfx} turns into undefined]")
+        def gi(c):
+            env = mk_env(c)
+            ctx = mk_ctx(c, env)
+            obj, key = c.any("obj"), c.any("key")
+            c.call(obj, key, self_val=ctx)
+            c.raises("KeyError", "IndexError", "TypeError")
+            c.ensures("completes", lambda r: z3.BoolVal(True))
+            c.replay("code", code=REPLAY_ITEM)
+    _mkgi(_sfx)
